@@ -943,7 +943,7 @@ fn c10_hist(input: &Input, obs: &mut Obs) -> Result<(), Fail> {
                 target_high = true;
                 cycles += 1;
             }
-            let wts: [u32; 10] = if target_high { [14, 2, 1, 4, 2, 3, 2, 3, 1, 2] } else { [3, 10, 3, 3, 1, 4, 2, 2, 1, 2] };
+            let wts: [u32; 12] = if target_high { [14, 2, 1, 4, 2, 3, 2, 3, 1, 2, 1, 2] } else { [3, 10, 3, 3, 1, 4, 2, 2, 1, 2, 2, 2] };
             let op = s.weighted(&wts);
             // with a read-shut client around, the number of held connections is not known exactly
             let mut burst_close = accepted.iter().any(|c| maybe(&w, *c))
@@ -1012,6 +1012,61 @@ fn c10_hist(input: &Input, obs: &mut Obs) -> Result<(), Fail> {
                     if small {
                         w.flush();
                         obs.label("flush_outgoing_writes");
+                    }
+                }
+                11 => {
+                    // several requests (some announcing their body with Expect) reach the server in one read
+                    let live: Vec<usize> = accepted.iter().copied().filter(|c| alive(&w, *c) && w.clients[*c].staged.is_empty() && !w.clients[*c].dirty).collect();
+                    if !live.is_empty() {
+                        let c = live[s.below(live.len())];
+                        let k = s.range(2, 4);
+                        let mut any_expect = false;
+                        for _ in 0..k {
+                            let mut spec = spec_from(&mut s, true, false);
+                            spec.body = spec.body.min(60);
+                            any_expect |= spec.expect;
+                            w.send_request(c, &spec, &[]);
+                        }
+                        obs.label("pipelined_requests_in_one_read");
+                        if any_expect {
+                            obs.label("pipelined_with_expect");
+                        }
+                    }
+                }
+                10 => {
+                    // a client that does not read is sent more than its socket takes, so that part of
+                    // a response is on the wire and the rest pending; then it leaves (after reading
+                    // some of it, or none)
+                    let live: Vec<usize> = accepted.iter().copied().filter(|c| alive(&w, *c) && w.clients[*c].staged.is_empty() && !w.clients[*c].dirty).collect();
+                    if !live.is_empty() {
+                        let c = live[s.below(live.len())];
+                        w.clients[c].lazy = true;
+                        if !w.outstanding.iter().any(|o| o.c == c) {
+                            let spec = spec_from(&mut s, false, false);
+                            w.send_request(c, &spec, &[]);
+                            w.settle(100, true);
+                        }
+                        let mut big = false;
+                        while let Some(k) = w.outstanding.iter().position(|o| o.c == c) {
+                            let size = if big { s.range(0, 300) } else { [300_000usize, 500_000, 1_000_000][s.below(3)] };
+                            big = true;
+                            w.respond(k, 200, size);
+                        }
+                        if big {
+                            w.settle(400, true);
+                            match s.below(3) {
+                                0 => {}
+                                1 => {
+                                    w.read_client(c, 1 + s.below(100_000));
+                                    w.settle(400, true);
+                                }
+                                _ => {
+                                    w.read_client(c, 1 + s.below(4096));
+                                }
+                            }
+                            w.close_client(c);
+                            obs.label("hangup_with_partly_written_response");
+                        }
                     }
                 }
                 8 => {
@@ -2012,6 +2067,19 @@ fn c18_kill(input: &Input, obs: &mut Obs) -> Result<(), Fail> {
     KILL_AFTER_START.with(|c| c.set(after_start));
     if after_start {
         obs.label("kill_switch_added_after_start");
+    }
+    // descriptor number of the switch: whatever the process hands out, or 0
+    struct Fd0Guard;
+    impl Drop for Fd0Guard {
+        fn drop(&mut self) {
+            KILL_ON_FD0.with(|c| c.set(false));
+        }
+    }
+    let _fd0_guard = Fd0Guard;
+    let on_fd0 = s.chance(60);
+    KILL_ON_FD0.with(|c| c.set(on_fd0));
+    if on_fd0 {
+        obs.label("kill_switch_is_descriptor_0");
     }
     let mut nontrivial_points = 0u64;
     let mut evals = 0u64;
